@@ -515,6 +515,12 @@ pub(crate) fn run(
                         if state.get(0) > slot1 {
                             state.save(0, slot1);
                         }
+                        // Likewise, `\K` inside a look-behind can move the match start before
+                        // the position where the search started, which would make matches of
+                        // `find_iter` overlap. Cap the start to >= pos.
+                        if state.get(0) < pos {
+                            state.save(0, pos);
+                        }
                     }
                     return Ok(Some(state.saves));
                 }
